@@ -555,6 +555,9 @@ def merge_file_level(
             value = {**old_value, **value}
 
         setattr(new, name, value)
+        # coercing validators store the normalised value on the instance,
+        # so run it again on the value that was just assigned
+        validate_field(new, field, value)
 
     return new
 
